@@ -1,5 +1,6 @@
 /-
-  Dense refinement, continued: FILES, METADATA, inspection and housekeeping lines.
+  Dense refinement, continued: FILES, METADATA, HEALPix interchange, MOC, inspection and
+  housekeeping lines.
 
   Lemmas/ApiDenseAll.lean relates the protocol to a coverage-aware dense interpreter on worlds
   that consist of maps only (`DenseWorldC`).  Here the dense world is extended with what the
@@ -10,19 +11,24 @@
                  + files   (name ↦ `DenseFile`: the `DenseMapC` SNAPSHOT that was written and the
                             user metadata stored with it; no arrays, no block order, no header
                             keywords)
-                 + hpfiles (HEALPix-format files: `HpFile` is dense already — an array, or
-                            (pixel, value) pairs)
+                 + hpfiles (name ↦ `DenseHp`: the snapshot an EXPLICIT HEALPix-format file was
+                            written from — the file lists the valid pixels in storage order, which
+                            no dense view shows — or the columns of a file given literally)
                  + mocs    (MOC files: the UNIQ column)
                  + metas   (user metadata per map name, as the driver keeps it)
 
-  `RelIO w D` extends `RelC`: the maps agree (`RelC`), every file of the world IS the written
+  `RelIO w D` extends `RelC`: the maps agree (`RelC`); every file of the world IS the written
   form `apiWrite m md` of a `FileTyped` map object `m` that agrees with the dense snapshot
-  (`FileCorr`), and the three tables that are dense already are equal.
+  (`FileCorr`); every HEALPix-format file is the literal one or `apiWriteHealpix m` of an `Ok`
+  map that agrees with the dense snapshot (`HpCorr`); MOC files and metadata are equal.
 
   `dstepArgsIO` interprets, on such a world,
     `info` `vpsc` `drop` `reset`                   (inspection / housekeeping)
     `meta` `getmeta`                               (user metadata)
     `write` `read` (full and `pixels=`) `covread`  (healsparse FITS files)
+    `fromhp` `genhp` (no key; NEST, or RING through a table no longer than the output)
+    `hpxwrite` `hpximplicit` `hpxread`             (HEALPix-format files)
+    `moc` `mocread`                                (MOC files)
     `pack`                                         (re-stated: it also moves user metadata)
   and falls back to `ApiDenseAll.dstepArgsAll` on every other line of the five families.
 
@@ -105,11 +111,18 @@ structure DenseFile where
   snap : DenseMapC
   mdata : List (String × String)
 
+/-- a HEALPix-format file, densely: the snapshot of the map an EXPLICIT file was written from
+    (`hpxwrite`: the file lists the valid pixels in storage order, which the dense view does not
+    show), or a file given by its columns (`hpximplicit`) -/
+inductive DenseHp where
+  | written (d : DenseMapC)
+  | file (f : HpFile)
+
 /-- maps, files, HEALPix-format files, MOC files and user metadata, by name -/
 structure DenseWorldIO where
   maps : DenseWorldC := []
   files : List (String × DenseFile) := []
-  hpfiles : List (String × HpFile) := []
+  hpfiles : List (String × DenseHp) := []
   mocs : List (String × List Nat) := []
   metas : List (String × List (String × String)) := []
 
@@ -122,16 +135,23 @@ def metaOfT (t : List (String × List (String × String))) (n : String) : List (
 def FileCorr (fo : FileObj) (df : DenseFile) : Prop :=
   ∃ m : MapObj, CorrC m df.snap ∧ m.FileTyped ∧ fo = apiWrite m df.mdata
 
-/-- **the relation**: maps as in `RelC`; files related by `FileCorr`; HEALPix files, MOCs and user
-    metadata literally equal -/
+/-- a HEALPix-format file of the world and a dense one agree: literally the same columns, or the
+    file is what `write(format='healpix')` produces for a map object that agrees with the dense
+    snapshot -/
+def HpCorr (f : HpFile) : DenseHp → Prop
+  | .file f' => f = f'
+  | .written d => ∃ m : MapObj, CorrC m d ∧ m.Ok ∧ apiWriteHealpix m = .ok f
+
+/-- **the relation**: maps as in `RelC`; files related by `FileCorr`; HEALPix files by `HpCorr`;
+    MOCs and user metadata literally equal -/
 structure RelIO (w : World) (D : DenseWorldIO) : Prop where
   rel : RelC w D.maps
   files : TabRel FileCorr w.files D.files
-  hpfiles : w.hpfiles = D.hpfiles
+  hpfiles : TabRel HpCorr w.hpfiles D.hpfiles
   mocs : w.mocs = D.mocs
   metas : w.metas = D.metas
 
-theorem relIO_empty : RelIO {} {} := ⟨relC_empty, TabRel.nil _, rfl, rfl, rfl⟩
+theorem relIO_empty : RelIO {} {} := ⟨relC_empty, TabRel.nil _, TabRel.nil _, rfl, rfl⟩
 
 /-- a step that changes the maps only -/
 theorem RelIO.of_maps {w w' : World} {D : DenseWorldIO} {M : DenseWorldC} (h : RelIO w D)
@@ -1032,7 +1052,7 @@ def dHpximplicitOp (D : DenseWorldIO) (a : Args) : DenseWorldIO × String :=
   match (a.get? "dtype").bind parseDT, a.nat? "spord", parseVals (a.getD "vals" "_") with
   | some dt, some so, some vals =>
     ({ D with hpfiles := (insert D.hpfiles (a.getD "f" "f")
-        (.implicit so dt (a.getD "ordering" "NESTED" == "RING") vals)) }, "ok")
+        (.file (.implicit so dt (a.getD "ordering" "NESTED" == "RING") vals))) }, "ok")
   | _, _, _ => (D, "bad-op:hpximplicit")
 
 theorem relIO_hpximplicit {w : World} {D : DenseWorldIO} (h : RelIO w D) (a : Args) :
@@ -1041,9 +1061,7 @@ theorem relIO_hpximplicit {w : World} {D : DenseWorldIO} (h : RelIO w D) (a : Ar
   unfold opHpximplicit dHpximplicitOp
   cases (a.get? "dtype").bind parseDT <;> cases a.nat? "spord" <;>
     cases parseVals (a.getD "vals" "_") <;> try exact ⟨h, rfl⟩
-  refine ⟨⟨relC_of_pool h.rel rfl, h.files, ?_, h.mocs, h.metas⟩, rfl⟩
-  show insert w.hpfiles _ _ = _
-  rw [h.hpfiles]
+  exact ⟨⟨relC_of_pool h.rel rfl, h.files, TabRel.insert h.hpfiles _ rfl, h.mocs, h.metas⟩, rfl⟩
 
 /-- a write request on a coverage-aware dense map (`update_values_pix`): the values by
     `ApiDense.dUpdate`, the mask grown by the coverage pixels of the pixels addressed -/
@@ -1109,11 +1127,168 @@ theorem opHpxread_eqIO (w : World) (a : Args) :
       | none, _ => (w, "bad-op:no-such-map")
       | _, _ => (w, "bad-op:hpxread") := rfl
 
+/-- **reading back an explicit file written from the snapshot `d`** with coverage order `co`:
+    IndexError for a map without valid pixels (`data[0]` of an empty table); `make_empty` decides
+    on the orders and the sentinel; a valid value that is not of the cell type is refused; else a
+    PLAIN map of the file's dtype (a bit-packed map comes back as a plain boolean map) with the
+    snapshot's value at every valid pixel and the sentinel elsewhere, covering the coverage pixels
+    that hold a valid pixel -/
+def dReadWritten (d : DenseMapC) (co : Nat) : Except Err DenseMapC :=
+  match ApiHealpixRT.hpxDT d.toDense.kind with
+  | none => .error .index
+  | some dt =>
+    if ApiDenseScalar.dValidSet d.toDense = [] then .error .index else
+    match apiMakeEmpty co d.toDense.spord (.plain dt) (some d.toDense.sent) [] with
+    | .error e => .error e
+    | .ok _ =>
+      if (ApiDenseScalar.dValidSet d.toDense).any
+          (fun p => !valMatchesKind (.plain dt) (d.toDense.f p)) then .error .value
+      else .ok ⟨⟨co, d.toDense.spord, .plain dt, d.toDense.sent,
+          fun p => if ApiDenseScalar.dValid d.toDense (d.toDense.f p) = true then d.toDense.f p
+            else d.toDense.sent⟩,
+        fun k => (ApiDenseScalar.dValidSet d.toDense).any
+          fun p => p >>> (cfgOf co d.toDense.spord).shift == k⟩
+
+open ApiHealpixRT in
+theorem readWritten_corrC {m : MapObj} {d : DenseMapC} (hc : CorrC m d) (hm : m.Ok) {f : HpFile}
+    (hf : apiWriteHealpix m = .ok f) (co : Nat) (r2n : Option (Array Nat)) :
+    OutRelM (apiReadHealpix f co r2n) (dReadWritten d co) := by
+  have hv := hm.2.1.blankInvalid
+  have hwf := hm.1
+  rw [write_eq hwf hv] at hf
+  -- the dtype of the file
+  have hdt : ∃ dt, hpxDT m.kind = some dt ∧
+      f = .explicit m.spord dt m.sent (validList m) ((validList m).map m.abs) := by
+    cases hk : m.kind with
+    | plain dt => rw [hk] at hf; cases hf; exact ⟨dt, rfl, rfl⟩
+    | packed => rw [hk] at hf; cases hf; exact ⟨.bool, rfl, rfl⟩
+    | wide n => rw [hk] at hf; cases hf
+    | recd fs pr => rw [hk] at hf; cases hf
+  obtain ⟨dt, hdt, rfl⟩ := hdt
+  have hmem : ∀ p, p ∈ validList m ↔ p ∈ ApiDenseScalar.dValidSet d.toDense := by
+    intro p
+    rw [mem_validList hwf hv, ← ApiDenseScalar.corr_validSet hc.corr, ApiMoc.mem_validSet]
+    rfl
+  have hnil : (validList m).isEmpty = true ↔ ApiDenseScalar.dValidSet d.toDense = [] := by
+    rw [List.isEmpty_iff]
+    constructor
+    · intro h
+      exact List.eq_nil_iff_forall_not_mem.2 fun p hp => by
+        have := (hmem p).2 hp; rw [h] at this; cases this
+    · intro h
+      exact List.eq_nil_iff_forall_not_mem.2 fun p hp => by
+        have := (hmem p).1 hp; rw [h] at this; cases this
+  unfold dReadWritten
+  rw [← hc.corr.kind, hdt, ← hc.corr.spord, ← hc.corr.sent]
+  simp only []
+  cases hR : apiReadHealpix (.explicit m.spord dt m.sent (validList m) ((validList m).map m.abs))
+      co r2n with
+  | ok m1 =>
+    obtain ⟨hle, g1, g2, g3, g4, gok, gnp, gabs, gcov⟩ := read_write_content hm hR
+    obtain ⟨_, _, _, _, _, gview, _, gne, _, _, gty, _, _⟩ := readExplicit_ok hR (by simp)
+    have hne : ¬ ApiDenseScalar.dValidSet d.toDense = [] := fun h =>
+      gne (List.isEmpty_iff.1 (hnil.2 h))
+    rw [if_neg hne]
+    have hE : ∃ e, apiMakeEmpty co m.spord (.plain dt) (some m.sent) [] = .ok e := by
+      unfold apiReadHealpix at hR
+      simp only [bind, Except.bind, throw, throwThe, MonadExceptOf.throw] at hR
+      split at hR
+      · cases hR
+      · cases he : apiMakeEmpty co m.spord (.plain dt) (some m.sent) [] with
+        | error x => rw [he] at hR; cases hR
+        | ok e => exact ⟨e, rfl⟩
+    obtain ⟨e, hE⟩ := hE
+    rw [hE]
+    simp only []
+    have hty : ¬ ((ApiDenseScalar.dValidSet d.toDense).any
+        (fun p => !valMatchesKind (.plain dt) (d.toDense.f p))) = true := by
+      intro h
+      rw [List.any_eq_true] at h
+      obtain ⟨p, hp, hnm⟩ := h
+      have hpl := (hmem p).2 hp
+      have hpn := ((mem_validList hwf hv p).1 hpl).1
+      have := List.all_eq_true.1 gty (m.abs p) (List.mem_map.2 ⟨p, hpl, rfl⟩)
+      rw [hc.corr.abs p hpn] at this
+      rw [this] at hnm
+      cases hnm
+    rw [if_neg hty]
+    have hcfg : m1.c = cfgOf co m.spord := by unfold MapObj.c; rw [g1, g2]
+    refine ⟨⟨gok.1, gview, g1, g2, g3, g4, ?_⟩, ?_⟩
+    · intro p hp
+      rw [gnp] at hp
+      rw [gabs p hp]
+      show _ = if ApiDenseScalar.dValid d.toDense (d.toDense.f p) = true then d.toDense.f p
+        else m.sent
+      rw [ApiDenseScalar.corr_valid hc.corr, hc.corr.abs p hp]
+    · intro k hk
+      show _ = (ApiDenseScalar.dValidSet d.toDense).any
+        fun p => p >>> (cfgOf co m.spord).shift == k
+      rw [Bool.eq_iff_iff, gcov k hk, List.any_eq_true, hcfg]
+      constructor
+      · rintro ⟨p, hp, hval, hpk⟩
+        exact ⟨p, (hmem p).1 ((mem_validList hwf hv p).2 ⟨hp, hval⟩), by simpa using hpk⟩
+      · rintro ⟨p, hp, hpk⟩
+        have := (mem_validList hwf hv p).1 ((hmem p).2 hp)
+        exact ⟨p, this.1, this.2, by simpa using hpk⟩
+  | error x =>
+    unfold apiReadHealpix at hR
+    simp only [bind, Except.bind, throw, throwThe, MonadExceptOf.throw] at hR
+    by_cases hemp : (validList m).isEmpty = true
+    · rw [if_pos hemp] at hR
+      cases hR
+      rw [if_pos (hnil.1 hemp)]
+      exact rfl
+    · rw [if_neg hemp] at hR
+      rw [if_neg (fun h => hemp (hnil.2 h))]
+      cases hE : apiMakeEmpty co m.spord (.plain dt) (some m.sent) [] with
+      | error y => rw [hE] at hR; cases hR; exact rfl
+      | ok e =>
+        rw [hE] at hR
+        simp only [] at hR ⊢
+        obtain ⟨hle, e1, e2, e3, e4, _⟩ := WFRes.apiMakeEmpty_ok hE
+        have hen : e.npix = m.npix := by
+          show (cfgOf e.covord e.spord).npix = (cfgOf m.covord m.spord).npix
+          rw [e1, e2, ApiDegrade.cfgOf_npix hle, ApiDegrade.cfgOf_npix hwf.1]
+        have herr := ApiDenseMulti.replace_errOf (e := e) (pix := validList m)
+          (vals := (validList m).map m.abs) e4 (nodup_validList hwf hv) (by simp)
+          (fun p hp => by rw [hen]; exact ((mem_validList hwf hv p).1 hp).1)
+        rw [hR, if_neg hemp, e3] at herr
+        simp only [ApiDenseMulti.errOf'] at herr
+        by_cases hall : (!((validList m).map m.abs).all (valMatchesKind (.plain dt))) = true
+        · rw [if_pos hall] at herr
+          cases herr
+          have : ((ApiDenseScalar.dValidSet d.toDense).any
+              (fun p => !valMatchesKind (.plain dt) (d.toDense.f p))) = true := by
+            simp only [Bool.not_eq_true', List.all_eq_false, List.mem_map] at hall
+            obtain ⟨x, ⟨p, hp, rfl⟩, hnm⟩ := hall
+            rw [List.any_eq_true]
+            refine ⟨p, (hmem p).1 hp, ?_⟩
+            rw [← hc.corr.abs p ((mem_validList hwf hv p).1 hp).1]
+            simpa using hnm
+          rw [if_pos this]
+          exact rfl
+        · rw [if_neg hall] at herr
+          cases herr
+
+/-- reading a stored HEALPix-format file, densely -/
+def dReadHpD (f : DenseHp) (co : Nat) (r2n : Option (Array Nat)) : Except Err DenseMapC :=
+  match f with
+  | .written d => dReadWritten d co
+  | .file f => dReadHp f co r2n
+
+theorem readHpD_corrC {f : HpFile} {df : DenseHp} (h : HpCorr f df) (co : Nat)
+    (r2n : Option (Array Nat)) : OutRelM (apiReadHealpix f co r2n) (dReadHpD df co r2n) := by
+  cases df with
+  | file f' => cases h; exact apiReadHealpix_corrC f co r2n
+  | written d =>
+    obtain ⟨m, hc, hm, hf⟩ := h
+    exact readWritten_corrC hc hm hf co r2n
+
 /-- `hpxread f=F r=R covord= [r2n=]` -/
 def dHpxreadOp (D : DenseWorldIO) (a : Args) : DenseWorldIO × String :=
   match lookup D.hpfiles (a.getD "f" "f"), a.nat? "covord" with
   | some f, some co =>
-    (match dReadHp f co ((a.get? "r2n").bind parseNats |>.map List.toArray) with
+    (match dReadHpD f co ((a.get? "r2n").bind parseNats |>.map List.toArray) with
      | .ok d => ({ D with maps := D.maps.bind (a.getD "r" "tmp") d }, "ok")
      | .error e => (D, errLine e))
   | none, _ => (D, "bad-op:no-such-map")
@@ -1123,18 +1298,61 @@ theorem relIO_hpxread {w : World} {D : DenseWorldIO} (h : RelIO w D) (a : Args) 
     RelIO (opHpxread w a).1 (dHpxreadOp D a).1 ∧ (opHpxread w a).2 = (dHpxreadOp D a).2 := by
   rw [opHpxread_eqIO]
   unfold dHpxreadOp
-  rw [h.hpfiles]
-  cases lookup D.hpfiles (a.getD "f" "f") <;> cases a.nat? "covord" <;> try exact ⟨h, rfl⟩
-  rename_i f co
-  simp only []
-  have hr := apiReadHealpix_corrC f co ((a.get? "r2n").bind parseNats |>.map List.toArray)
-  revert hr
-  cases apiReadHealpix f co ((a.get? "r2n").bind parseNats |>.map List.toArray) <;>
-    cases dReadHp f co ((a.get? "r2n").bind parseNats |>.map List.toArray) <;> intro hr
-  · cases hr; exact ⟨h, rfl⟩
-  · exact hr.elim
-  · exact hr.elim
-  · exact ⟨h.of_maps (h.rel.bind _ (hr.cache none)) rfl rfl rfl rfl, rfl⟩
+  have hf := h.hpfiles (a.getD "f" "f")
+  revert hf
+  cases lookup w.hpfiles (a.getD "f" "f") <;> cases lookup D.hpfiles (a.getD "f" "f") <;>
+    intro hf
+  · cases a.nat? "covord" <;> exact ⟨h, rfl⟩
+  · exact hf.elim
+  · exact hf.elim
+  · rename_i f df
+    cases a.nat? "covord" with
+    | none => exact ⟨h, rfl⟩
+    | some co =>
+      simp only []
+      have hr := readHpD_corrC hf co ((a.get? "r2n").bind parseNats |>.map List.toArray)
+      revert hr
+      cases apiReadHealpix f co ((a.get? "r2n").bind parseNats |>.map List.toArray) <;>
+        cases dReadHpD df co ((a.get? "r2n").bind parseNats |>.map List.toArray) <;> intro hr
+      · cases hr; exact ⟨h, rfl⟩
+      · exact hr.elim
+      · exact hr.elim
+      · exact ⟨h.of_maps (h.rel.bind _ (hr.cache none)) rfl rfl rfl rfl, rfl⟩
+
+/-- `hpxwrite n f=F` (`write(format='healpix')`): record maps → `NotImplementedError`, wide masks
+    → `TypeError`; else the snapshot is stored -/
+def dHpxwriteOp (D : DenseWorldIO) (a : Args) : DenseWorldIO × String :=
+  dWithMapIO D a fun d =>
+    match d.toDense.kind with
+    | .recd _ _ => (D, errLine .notImpl)
+    | .wide _ => (D, errLine .type)
+    | _ => ({ D with hpfiles := insert D.hpfiles (a.getD "f" "f") (.written d) }, "ok")
+
+theorem relIO_hpxwrite {w : World} {D : DenseWorldIO} (h : RelIO w D) (hw : w.Good) (a : Args) :
+    RelIO (opHpxwrite w a).1 (dHpxwriteOp D a).1 ∧ (opHpxwrite w a).2 = (dHpxwriteOp D a).2 := by
+  unfold opHpxwrite dHpxwriteOp
+  refine relIO_withMap h fun m d hg _ hc => ?_
+  have hok := hw.get hg
+  have hwe := ApiHealpixRT.write_eq hok.1 hok.2.1.blankInvalid
+  rw [← hc.corr.kind]
+  cases hA : apiWriteHealpix m with
+  | error e =>
+    rw [hA] at hwe
+    cases hk : m.kind with
+    | plain dt => rw [hk] at hwe; cases hwe
+    | packed => rw [hk] at hwe; cases hwe
+    | wide n => rw [hk] at hwe; cases hwe; exact ⟨h, rfl⟩
+    | recd fs pr => rw [hk] at hwe; cases hwe; exact ⟨h, rfl⟩
+  | ok f =>
+    have hrel : RelIO ({ w with hpfiles := (insert w.hpfiles (a.getD "f" "f") f) } : World)
+        { D with hpfiles := insert D.hpfiles (a.getD "f" "f") (.written d) } :=
+      ⟨relC_of_pool h.rel rfl, h.files, TabRel.insert h.hpfiles _ ⟨m, hc, hok, hA⟩, h.mocs, h.metas⟩
+    rw [hA] at hwe
+    cases hk : m.kind with
+    | plain dt => exact ⟨hrel, rfl⟩
+    | packed => exact ⟨hrel, rfl⟩
+    | wide n => rw [hk] at hwe; cases hwe
+    | recd fs pr => rw [hk] at hwe; cases hwe
 
 /-! ### (4) MOC files: `moc`, `mocread` -/
 
@@ -1247,6 +1465,7 @@ def dstepArgsIO (D : DenseWorldIO) (op : String) (a : Args) : DenseWorldIO × St
   | "covread" => dCovreadOp D a
   | "fromhp" => dFromhpOp D a
   | "genhp" => dGenhpOp D a
+  | "hpxwrite" => dHpxwriteOp D a
   | "hpximplicit" => dHpximplicitOp D a
   | "hpxread" => dHpxreadOp D a
   | "moc" => dMocOp D a
@@ -1254,12 +1473,12 @@ def dstepArgsIO (D : DenseWorldIO) (op : String) (a : Args) : DenseWorldIO × St
   | _ => dOld D op a
 
 /-- the new lines: inspection / housekeeping, user metadata, healsparse files, HEALPix import,
-    NEST export without key, implicit HEALPix files and the HEALPix reader, MOC files -/
+    export without key (`genhpOk`), HEALPix-format files (explicit and implicit), MOC files -/
 def ioOp (op : String) (a : Args) : Bool :=
   op == "info" || op == "vpsc" || op == "drop" || op == "reset" || op == "meta" ||
     op == "getmeta" || op == "write" || op == "read" || op == "covread" || op == "fromhp" ||
     (op == "genhp" && genhpOk a) || op == "hpximplicit" || op == "hpxread" || op == "moc" ||
-    op == "mocread"
+    op == "mocread" || op == "hpxwrite"
 
 /-- a parsed line the interpreter answers: a line of the five families (`opOkAll`) or a new one -/
 def opOkIO (op : String) (a : Args) : Bool := opOkAll op a || ioOp op a
@@ -1331,8 +1550,8 @@ theorem rel_stepArgsIO {w : World} {D : DenseWorldIO} (h : RelIO w D) (hw : w.Go
   · unfold ioOp at hp
     simp only [Bool.or_eq_true, beq_iff_eq, Bool.and_eq_true] at hp
     rcases hp with
-      (((((((((((((rfl | rfl) | rfl) | rfl) | rfl) | rfl) | rfl) | rfl) | rfl) | rfl) | ⟨rfl, hg⟩) |
-        rfl) | rfl) | rfl) | rfl
+      ((((((((((((((rfl | rfl) | rfl) | rfl) | rfl) | rfl) | rfl) | rfl) | rfl) | rfl) | ⟨rfl, hg⟩) |
+        rfl) | rfl) | rfl) | rfl) | rfl
     · exact relIO_info h a
     · exact relIO_vpsc h hw.1 a
     · exact relIO_drop h a
@@ -1348,6 +1567,7 @@ theorem rel_stepArgsIO {w : World} {D : DenseWorldIO} (h : RelIO w D) (hw : w.Go
     · exact relIO_hpxread h a
     · exact relIO_moc h hw.1 a
     · exact relIO_mocread h a
+    · exact relIO_hpxwrite h hw.1 a
 
 /-- on a line of the five families the map part and the answer are those of
     `ApiDenseAll.dstepArgsAll` -/
@@ -1409,8 +1629,8 @@ theorem ioOp_not_packed {op : String} {a : Args} (h : ioOp op a = true) :
   unfold ioOp at h
   simp only [Bool.or_eq_true, beq_iff_eq, Bool.and_eq_true] at h
   rcases h with
-    (((((((((((((rfl | rfl) | rfl) | rfl) | rfl) | rfl) | rfl) | rfl) | rfl) | rfl) | ⟨rfl, _⟩) |
-      rfl) | rfl) | rfl) | rfl <;> decide +kernel
+    ((((((((((((((rfl | rfl) | rfl) | rfl) | rfl) | rfl) | rfl) | rfl) | rfl) | rfl) | ⟨rfl, _⟩) |
+      rfl) | rfl) | rfl) | rfl) | rfl <;> decide +kernel
 
 theorem opOkIO_not_packed {op : String} {a : Args} (h : opOkIO op a = true) :
     op.startsWith "p." = false := by
